@@ -3,7 +3,7 @@
 # Applies a behaviour-preserving change in a scratch worktree, confirms the repo tests pass, runs the checks
 # against it: every check must exit 0 (an alarm here is a false alarm of the machinery).
 set -u
-D=$1; shift
+D=$(readlink -f "$1"); shift
 W=${MUT_WT:-/tmp/wt/eval}
 export GOFLAGS=-mod=mod GOPROXY=off GOSUMDB=off GOTOOLCHAIN=local
 cd $W || exit 3
